@@ -195,3 +195,36 @@ def addr_admits(av: Any, value: Any) -> bool:
 
 def kinds_of(ctx: Any) -> Set[str]:
     return set(str(t) for t in ctx.transaction_types)
+
+
+# --------------------------------------------------------------------------------------------
+# all main-context soundness clauses (C06-C09) for one run and a set of blocks with contexts
+
+
+def soundness_problems(case: Any, run: Run, blocks: List[Any], ctx_of: Any) -> List[Tuple[str, Dict[str, Any]]]:
+    """[(clause, detail)] for every block in ``blocks`` whose context does not admit the run."""
+    out: List[Tuple[str, Dict[str, Any]]] = []
+    pairs = size_index_pairs(run)
+    sizes = {s for s, _ in pairs}
+    idxs = {g for _, g in pairs}
+    views = own_views(case, run)
+    for b in blocks:
+        ctx = ctx_of(b)
+        line = b.entry_instr.line
+        if sizes - set(ctx.group_sizes):
+            out.append(("size-missing", {"block": line, "missing": sorted(sizes - set(ctx.group_sizes))}))
+        if idxs - set(ctx.group_indices):
+            out.append(("index-missing", {"block": line, "missing": sorted(idxs - set(ctx.group_indices))}))
+        for m in views:
+            need = kinds(case, run, m)
+            if need - kinds_of(ctx):
+                out.append(("kind-missing", {"block": line, "missing": sorted(need - kinds_of(ctx))}))
+            for f, attr in (("RekeyTo", "rekeyto"), ("CloseRemainderTo", "closeto"), ("AssetCloseTo", "assetcloseto"), ("Sender", "sender")):
+                av = getattr(ctx, attr)
+                for v in addr_options(case, run, m, f):
+                    if v != ZERO and not addr_admits(av, v):
+                        out.append(("address-not-admitted", {"block": line, "field": f, "value": v[1]}))
+            top = max(fee_options(run, m))
+            if not ctx.max_fee_unknown and top > ctx.max_fee:
+                out.append(("fee-above-bound", {"block": line, "fee": top, "max_fee": ctx.max_fee}))
+    return out
